@@ -174,7 +174,7 @@ func (ex *Exec) mergeStates(ins []edgeState) *State {
 				t, ok := get(e.st)[k]
 				if !ok {
 					if heapLike {
-						t = ex.initialComp(k)
+						t = ex.initialCompIn(e.st, k)
 					} else {
 						continue
 					}
@@ -224,6 +224,20 @@ func (ex *Exec) initialComp(k string) string {
 		pre = "G0_"
 	}
 	name := pre + mangle(trimCompPrefix(k))
+	ex.vc.declareConst(name, ex.compSort(k))
+	return name
+}
+
+// initialCompIn: the symbol a component has when it is first read in state st: its initial value, unless the whole
+// heap was havocked since (then a symbol of that epoch; immutable globals and the allocation set keep theirs).
+func (ex *Exec) initialCompIn(st *State, k string) string {
+	if st == nil || st.epoch == "" || k == "$alloc" {
+		return ex.initialComp(k)
+	}
+	if g := ex.prog.globalByComp[k]; g != nil && !ex.prog.mutableGlobals[g] {
+		return ex.initialComp(k)
+	}
+	name := "E" + st.epoch + "_" + mangle(trimCompPrefix(k))
 	ex.vc.declareConst(name, ex.compSort(k))
 	return name
 }
@@ -593,6 +607,29 @@ func (ex *Exec) addrEffects(addr ssa.Value, ms *modSet, binds map[*ssa.FreeVar]s
 			ms.allCell = true
 			return
 		default:
+			// a pointer-typed LOCAL that holds addresses of (parts of) other locals, e.g. last := &result[n-1]:
+			// writing through it writes those locals
+			if u, isLoad := cur.(*ssa.UnOp); isLoad && u.Op == token.MUL {
+				if pa, isAlloc := u.X.(*ssa.Alloc); isAlloc && !ex.isHeapAlloc(pa) && pa.Referrers() != nil {
+					all, some := true, false
+					for _, r := range *pa.Referrers() {
+						sr, isStore := r.(*ssa.Store)
+						if !isStore || sr.Addr != pa {
+							continue
+						}
+						switch sr.Val.(type) {
+						case *ssa.IndexAddr, *ssa.FieldAddr, *ssa.Alloc:
+							ex.addrEffects(sr.Val, ms, binds)
+							some = true
+						default:
+							all = false
+						}
+					}
+					if some && all {
+						return
+					}
+				}
+			}
 			// pointer-typed value: heap reference
 			if pt, ok := cur.Type().Underlying().(*types.Pointer); ok {
 				if _, isStruct := pt.Elem().Underlying().(*types.Struct); isStruct {
@@ -658,6 +695,12 @@ func (ex *Exec) callEffects(fn *ssa.Function, c *ssa.CallCommon, ms *modSet, bin
 		}
 	}
 	if c.IsInvoke() {
+		// closures passed to an interface method run inside it: what they write (captured locals included) counts
+		for _, a := range c.Args {
+			if mc, ok := a.(*ssa.MakeClosure); ok {
+				ex.closureEffects(mc, ms, binds, depth)
+			}
+		}
 		if ct := ex.prog.ifaceContract(c); ct != nil {
 			ex.contractEffects(ct, ms, nil, c, depth)
 			return
@@ -939,6 +982,8 @@ func (ex *Exec) havocModSet(fr *Frame, st *State, ms *modSet, tag string) {
 			}
 			st.ghost[k] = vc.fresh("Gh_"+k+"_"+tag, ex.compSort(k))
 		}
+		vc.counter++
+		st.epoch = fmt.Sprintf("%d", vc.counter)
 		vc.note("loop/call in %s havocs the whole heap", funcKey(fr.fn))
 		return
 	}
